@@ -74,16 +74,21 @@ structure DSt where
   st : St := {}
   live : Bool := false
   progs : List (Nat × List Stmt) := []     -- calls in progress (interleaving model)
+  txlog : List String := []                -- every settings packet handed to send_packet so far
 
 def reply (r : Res) : String :=
   let o := if r.outs.isEmpty then "-" else ";".intercalate (r.outs.map showOut)
   let hd := match r.err with | none => "ok" | some e => s!"err:{e}"
   s!"{hd} outs={o} st={digest r.st}"
 
+def txsOf (outs : List Out) : List String :=
+  outs.filterMap fun o => match o with | .tx _ _ => some (showOut o) | _ => none
+
 def dstep (d : DSt) (ws : List String) : DSt × String :=
   match ws with
   | ["restart"] => ({}, "ok")
   | ["live"] => ({ d with live := true }, "ok")
+  | ["txlog"] => (d, "ok " ++ (if d.txlog.isEmpty then "-" else ";".intercalate d.txlog))
   | ["dump", h] =>
     match h.toNat? with
     | some h =>
@@ -99,7 +104,7 @@ def dstep (d : DSt) (ws : List String) : DSt × String :=
       let i : ISt := { st := d.st, progs := d.progs }
       let a? := if which == "connect" then some (IOp.callConnect s) else if which == "disconnect" then some (IOp.callDisconnect s) else none
       match a?.bind (istep i) with
-      | some (i', o, e) => ({ d with st := i'.st, progs := i'.progs }, reply { st := i'.st, outs := o, err := e } ++ s!" left={if (i'.prog s).isEmpty then 0 else 1}")
+      | some (i', o, e) => ({ d with st := i'.st, progs := i'.progs, txlog := d.txlog ++ txsOf o }, reply { st := i'.st, outs := o, err := e } ++ s!" left={if (i'.prog s).isEmpty then 0 else 1}")
       | none => (d, "bad-op")
     | none => (d, "bad-op")
   | ["slrun", s] =>
@@ -107,7 +112,7 @@ def dstep (d : DSt) (ws : List String) : DSt × String :=
     | some s =>
       let i : ISt := { st := d.st, progs := d.progs }
       match istep i (.run s) with
-      | some (i', o, e) => ({ d with st := i'.st, progs := i'.progs }, reply { st := i'.st, outs := o, err := e } ++ s!" left={if (i'.prog s).isEmpty then 0 else 1}")
+      | some (i', o, e) => ({ d with st := i'.st, progs := i'.progs, txlog := d.txlog ++ txsOf o }, reply { st := i'.st, outs := o, err := e } ++ s!" left={if (i'.prog s).isEmpty then 0 else 1}")
       | none => (d, "bad-op")
     | none => (d, "bad-op")
   | _ =>
@@ -119,6 +124,6 @@ def dstep (d : DSt) (ws : List String) : DSt × String :=
         | op, _ => step d.st op
       match r? with
       | none => (d, "bad-op")
-      | some r => ({ d with st := r.st }, reply r)
+      | some r => ({ d with st := r.st, txlog := d.txlog ++ txsOf r.outs }, reply r)
 
 def main : IO Unit := runProto ({} : DSt) dstep
